@@ -28,7 +28,7 @@ RULE = (
 BUDGET = {'quick': (60000, 55), 'thorough': (4_000_000, 600)}
 COMPONENTS = common.COMPONENTS
 ASSUMPTIONS = ['FIFO ready queue', 'future().cancel() is not issued here (C04 covers it)', 'hooks do not raise']
-EXPECTED_COUNTERS = ['kind:workchain', 'probe:listener_removes_itself_in_terminal_notification', 'probe:failed_while_paused', 'probe:kill_while_paused', 'probe:kill_during_step', 'probe:kill_from_listener',
+EXPECTED_COUNTERS = ['probe:with_communicator', 'probe:listener_failed_in_notification', 'kind:workchain', 'probe:listener_removes_itself_in_terminal_notification', 'probe:failed_while_paused', 'probe:kill_while_paused', 'probe:kill_during_step', 'probe:kill_from_listener',
                      'probe:terminated_while_paused', 'final:finished', 'final:excepted', 'final:killed']
 KINDS = ['pause', 'play', 'kill', 'resume']
 KINDS_WITH_FAIL = KINDS + ['fail']
